@@ -20,6 +20,12 @@ def _configs(tier):
         out.append(("pile.%s" % kinds, "pile", {"kinds": kinds}))
     for kinds in ("L", "gL", "Lw", "wLg", "gLg"):
         out.append(("columns.%s" % kinds, "columns", {"kinds": kinds}))
+    # the leaf in a column / pile item that does NOT have the focus (focus on a selectable sibling S): its place is taken from
+    # the container's own size calculation (C19 decides those), events and cursor moves must reach it with its own size
+    for kinds in ("SL", "LS", "gSL"):
+        out.append(("columns.unfocused.%s" % kinds, "columns", {"kinds": kinds, "unfocused": True}))
+    for kinds in ("SL", "LS"):
+        out.append(("pile.unfocused.%s" % kinds, "pile", {"kinds": kinds, "unfocused": True}))
     for h in (False, True):
         for f in (False, True):
             out.append(("frame.h%d.f%d" % (h, f), "frame", {"header": h, "footer": f}))
@@ -44,6 +50,8 @@ def instances(tier):
     out = []
     for name, key, kw in _configs(tier):
         for op in ("cursor", "mouse", "move"):
+            if kw.get("unfocused") and op == "cursor":
+                continue
             out.append(Instance("%s.%s" % (name, op), "h_geom", {"key": key, "kw": kw, "op": op}, timeout=300))
     return out
 
@@ -59,13 +67,15 @@ def _build(I, key, kw):
                 box = len(kw["kinds"]) > 1 and "w" in kw["kinds"]
                 leaf = uw.ACursorLeaf(I, "leaf", "flow")
                 spec.append(("pack", leaf))
+            elif k == "S":
+                spec.append(("pack", uw.ACursorLeaf(I, "sib", "flow")))
             elif k == "f":
                 spec.append(("pack", uw.AFlow(I, "s%d" % i)))
             elif k == "g":
                 spec.append(("given", I.int("given%d" % i, 1), uw.ABox(I, "s%d" % i)))
             else:
                 spec.append(("weight", 1, uw.ABox(I, "s%d" % i)))
-        w = urwid.Pile(spec, focus_item=kw["kinds"].index("L"))
+        w = urwid.Pile(spec, focus_item=kw["kinds"].index("S" if kw.get("unfocused") else "L"))
         return w, leaf, ("box" if "w" in kw["kinds"] else "flow")
     if key == "columns":
         spec, leaf = [], None
@@ -73,11 +83,13 @@ def _build(I, key, kw):
             if k == "L":
                 leaf = uw.ACursorLeaf(I, "leaf", "flow")
                 spec.append(("weight", 2, leaf))
+            elif k == "S":
+                spec.append(("weight", 1, uw.ACursorLeaf(I, "sib", "flow")))
             elif k == "g":
                 spec.append((I.int("given%d" % i, 1), uw.AFlow(I, "s%d" % i)))
             else:
                 spec.append(("weight", 1, uw.AFlow(I, "s%d" % i)))
-        w = urwid.Columns(spec, dividechars=I.int("dividechars", 0), focus_column=kw["kinds"].index("L"))
+        w = urwid.Columns(spec, dividechars=I.int("dividechars", 0), focus_column=kw["kinds"].index("S" if kw.get("unfocused") else "L"))
         return w, leaf, "flow"
     if key == "frame":
         leaf = uw.ACursorLeaf(I, "leaf", "box")
@@ -136,10 +148,19 @@ def h_geom(I, key, kw, op):
     size = (cols, rows) if mode == "box" else (cols,)
     canv = w.render(size, True)
     cur = canv.cursor
-    I.assume(cur is not None)
     I.assume(leaf.last_size is not None)
     lc, lr = leaf._dims(leaf.last_size)
-    ox, oy = cur[0] - leaf.cx, cur[1] - leaf.cy  # where the leaf's top-left corner is drawn
+    if kw.get("unfocused"):
+        i = kw["kinds"].index("L")
+        if key == "columns":
+            widths = w.column_widths(size, True)
+            I.assume(len(widths) == len(w.contents))
+            ox, oy = ssum(widths[:i]) + i * w.dividechars, 0
+        else:
+            ox, oy = 0, ssum(w.get_item_rows(size, True)[:i])
+    else:
+        I.assume(cur is not None)
+        ox, oy = cur[0] - leaf.cx, cur[1] - leaf.cy  # where the leaf's top-left corner is drawn
     # fit precondition: the leaf is drawn completely inside the canvas
     I.assume(And(ox >= 0, oy >= 0, ox + lc <= canv.cols(), oy + lr <= canv.rows(), lc >= 1, lr >= 1))
     if op == "cursor":
@@ -181,6 +202,7 @@ def h_geom(I, key, kw, op):
             sz, c2, r2 = leaf.moved[-1]
             I.check("move_translated_row", Implies(inside, r2 == row - oy))
             I.check("move_translated_col", Implies(inside, c2 == col - ox))
+            I.check("move_delivered_with_the_render_size", Implies(inside, sz == leaf.last_size))
             if bool(leaf.accept_move):
                 I.check("accepted_move_succeeds", Implies(inside, _truthy(r)))
                 rep = w.get_cursor_coords(size)
